@@ -36,8 +36,16 @@ def _long(shift):
 
 
 LONGA, LONGB = _long(0), _long(1)
-CONTENTS = {"longa": LONGA, "longb": LONGB, "full": FULL, "nowell": NOWELL, "cyr": CYR, "nel": NEL, "commadec": COMMADEC, "commadlm": COMMADLM, "indent": INDENT}
-TOKENS = {"longa": ["é" * 120 + " end", "café Nº1"], "longb": ["é" * 120 + " end", "free téxt"], "full": ["café Nº1", "wéll name", "µ-field", "° sign", "µR/h", "gamma é", "°C", "free téxt"],
+# characters that a "helpful" normalisation would change: combining sequences, canonical singletons (OHM SIGN, ANGSTROM SIGN),
+# compatibility forms, characters outside the BMP, letters whose case mapping changes length; and header VALUES made only of
+# non-ASCII decimal digits (they are text, not numbers)
+UNI = FULL.replace("café Nº1", "cafe\u0301 N\u00ba1 \U0001d6fc").replace("µ-field", "\u2126-field \u212b \ufb01 \u00df \u0130") \
+    .replace("Bht.°C 80 : temp", "Bht.\u00b0C 80 : temp\nTHAI. \u0e52\u0e55\u0e56\u0e56 : thai digits\nFULLW. \uff11\uff12 : full-width digits\n"
+             "ARAB. \u0663\u0664\u0665 : arabic-indic digits")
+CONTENTS = {"uni": UNI, "longa": LONGA, "longb": LONGB, "full": FULL, "nowell": NOWELL, "cyr": CYR, "nel": NEL, "commadec": COMMADEC, "commadlm": COMMADLM, "indent": INDENT}
+TOKENS = {"uni": ["cafe\u0301 N\u00ba1 \U0001d6fc", "\u2126-field \u212b \ufb01 \u00df \u0130", "\u0e52\u0e55\u0e56\u0e56", "\uff11\uff12",
+                  "\u0663\u0664\u0665"],
+          "longa": ["é" * 120 + " end", "café Nº1"], "longb": ["é" * 120 + " end", "free téxt"], "full": ["café Nº1", "wéll name", "µ-field", "° sign", "µR/h", "gamma é", "°C", "free téxt"],
           "nowell": ["depth é"],
           "cyr": ["скважина", "м", "µR/h"],
           "nel": ["ca\x85fé\xa0Nº1", "free\x85téxt", "µ-field"], "commadec": ["depth é"], "commadlm": ["depth é"],
@@ -111,7 +119,7 @@ class World(object):
 
     def read(self, e):
         c, ch, enc, nl, opt = e["c"], e["ch"], e["enc"], e["nl"], e["opt"]
-        if c == "cyr" and enc in ("latin-1", "cp1252"):
+        if c in ("cyr", "uni") and enc in ("latin-1", "cp1252"):
             enc = "utf-8"
         if c == "nel" and enc == "cp1252":
             enc = "latin-1"         # U+0085 has no cp1252 encoding
